@@ -328,6 +328,12 @@ func (c *Canary) handleTCP(eh *ethernet.Frame, iph *ipv4.Header, data []byte) er
 
 	state := c.stateTable.Get(iph.Src, iph.Dst, hdr.Source, hdr.Destination)
 	if hdr.HasFlag(tcp.SYN) && !hdr.HasFlag(tcp.ACK) {
+		if state != nil {
+			// what is left of an earlier connection of this address and port pair must not stay
+			// in front of the new one: lookups return the first entry that matches
+			c.stateTable.Remove(state)
+		}
+
 		// no state found
 		state = c.NewState(iph.Src, hdr.Source, iph.Dst, hdr.Destination)
 		state.State = SocketListen
